@@ -45,7 +45,7 @@ ROOT = "/r"
 DIR_CLASSES = [None, "/r/build", "/out/build", "build", "build/../build2", "blink"]  # blink -> /out/build (a symbolic link)
 FILE_CLASSES = ["/r/src/a.c", "../src/a.c", "./x.c", "sub/../x.c"]
 INC_CLASSES = ["/r/inc", "inc", "../inc", "."]
-KINDS = ["good", "missing", "object", "link", "empty-command", "empty-arguments"]
+KINDS = ["good", "missing", "object", "link", "empty-command", "empty-arguments", "blank-command"]
 
 
 def _fs():
@@ -93,6 +93,8 @@ def _entry(kind, dcls, fcls, icls, form, iform=0):
         e["command"] = ""
     elif kind == "empty-arguments":
         e["arguments"] = []
+    elif kind == "blank-command":
+        e["command"] = "   "  # nothing but white space: no tool is invoked, whatever the stored string's truth value
     elif form == "command":
         e["command"] = " ".join(args)
     else:
@@ -101,7 +103,7 @@ def _entry(kind, dcls, fcls, icls, form, iform=0):
 
 
 def _pre(kind, d, f, i, first, nodir, iform):
-    if not (0 <= kind < 6 and 0 <= d < 6 and 0 <= f < 4 and 0 <= i < 4 and 0 <= iform < 4):
+    if not (0 <= kind < len(KINDS) and 0 <= d < 6 and 0 <= f < 4 and 0 <= i < 4 and 0 <= iform < 4):
         return False
     if kind != 0 and iform != 0:
         return False
@@ -138,7 +140,7 @@ def h_db(kind: int, d: int, f: int, i: int, first: bool, nodir: bool, iform: int
     import codebasin.config as config
 
     kd = dc = fc = ic = None
-    for k in range(6):
+    for k in range(len(KINDS)):
         if kind == k:
             kd = KINDS[k]
     for k in range(6):
@@ -190,7 +192,7 @@ def h_db(kind: int, d: int, f: int, i: int, first: bool, nodir: bool, iform: int
     warns = rec.warnings()
     ok = got == exp
     why = "" if ok else "entries differ"
-    if ok and kd in ("missing", "object", "link", "empty-command", "empty-arguments"):
+    if ok and kd in ("missing", "object", "link", "empty-command", "empty-arguments", "blank-command"):
         # skipped with a warning that names the entry's file
         want = "gone.c" if kd == "missing" else e["file"]
         n = len([w for w in warns if want in w])
@@ -280,9 +282,9 @@ def obligations(tier, known):
     obs = []
     forms = ["arguments", "command"]
     for form in forms:
-        for k in range(6):
+        for k in range(len(KINDS)):
             fid = {2: "C13-unsupported-silent", 3: "C13-unsupported-silent", 4: "C13-unsupported-silent",
-                   5: "C13-unsupported-silent"}.get(k)
+                   5: "C13-unsupported-silent", 6: "C13-unsupported-silent"}.get(k)
             expect = "hold"
             if fid and fid in known:
                 expect = "witness:" + fid
